@@ -33,11 +33,13 @@ class Mode(DataInputAbstract):
             )
 
     def _parse_and_override_particle_modes(self, particles):
-        self._particles = set()
+        # build the new set aside: an unknown designator must leave the mode as it was
+        new_particles = set()
         for particle in particles:
             if not isinstance(particle, str):
                 raise TypeError(f"Mode particle must be a str. {particle} given.")
-            self._particles.add(Particle(particle.upper()))
+            new_particles.add(Particle(particle.upper()))
+        self._particles = new_particles
 
     @property
     def particles(self):
